@@ -44,6 +44,9 @@ type c04Split struct {
 	// of the failure key so that a recorded finding never hides a failure on any other shape
 	Labels []string
 	Null   bool // some later part mentions the attribute as an explicit null (nothing to apply)
+	// the recorded `!reset` / `!override` path goes through a KEY that contains a dot (reverse-DNS label, sysctl name):
+	// tree.Path.Next escapes it when the path is recorded and when Apply walks the accumulated model
+	DottedTag bool
 }
 
 type c04SplitInfo struct {
@@ -61,6 +64,9 @@ type c04SplitCase struct {
 	// the service is named `x-web` instead of `web`: mergeMappings treats EVERY key starting with "x-" as an extension and
 	// replaces its value as a whole, also where the key is a user-chosen name (recorded finding xprefix-name-replaced:services)
 	XNamed bool `json:"x_named,omitempty"`
+	// the service is named `web.v1`: every path below it (recorded tag paths, rule lookups, unicity paths) goes through a
+	// key that contains the path separator
+	DotNamed bool `json:"dot_named,omitempty"`
 }
 
 // labelAt: the known-defect label that explains a failure with key `base` at position `where`, if the splits that
@@ -220,6 +226,9 @@ func init() {
 				return nil
 			}
 			where, a, b := c04Diff("", sOk, tOk)
+			if c.DotNamed {
+				where = strings.Replace(where, ".services.web.v1", ".services.web", 1)
+			}
 			if c.XNamed && strings.HasPrefix(where, ".services.x-web") {
 				return core.Fail("xprefix-name-replaced:services", fmt.Sprintf("service named x-web, split %s: at %s the merged files give %s but the target document gives %s (the later file replaced the whole service)", attrs, where, c04Short(a), c04Short(b)))
 			}
@@ -1562,6 +1571,103 @@ func (g *c04o) splitTagged(n int) c04Split {
 	return inner
 }
 
+var c04EntryPaths = [][]string{
+	{"services", "web", "labels"}, {"services", "web", "annotations"}, {"services", "web", "sysctls"},
+	{"services", "web", "deploy", "labels"}, {"networks", "front", "labels"}, {"volumes", "data", "labels"},
+	{"networks", "front", "driver_opts"}, {"volumes", "data", "driver_opts"},
+}
+
+// a tag on ONE entry of a mapping (labels, annotations, sysctls, driver_opts: keys are reverse-DNS names as often as
+// not): `!reset` removes that entry only, `!override` sets it; the entries the later file does not mention stay, and a
+// part after the tagged one may define the entry again.  Expected value = the parts replayed entry by entry.
+func (g *c04o) splitTaggedEntry(n int) c04Split {
+	path := c04EntryPaths[g.r.Intn(len(c04EntryPaths))]
+	kvAttr := path[len(path)-1] != "driver_opts" // KEY=VALUE attributes accept the list spelling too
+	keys := []string{"com.example.role", "tier", "net.core.somaxconn", "a.b", "plain"}
+	vals := []string{"1", "v", "x y", "frontend", "1024"}
+	val := func() string { return vals[g.r.Intn(len(vals))] }
+	state := map[string]string{}
+	s := c04Split{Path: path, Kind: "tag-entry"}
+	// base: "plain" (never tagged, so the attribute never becomes empty) and at least two other keys
+	base := map[string]*string{}
+	var order []string
+	for _, k := range keys {
+		if k == "plain" || len(order) < 2 || g.chance(2, 3) {
+			v := val()
+			base[k] = &v
+			order = append(order, k)
+			state[k] = v
+		}
+	}
+	// The base is spelled as a mapping, and for the KEY=VALUE attributes no part between the base and the tagged one
+	// mentions the attribute: mergeToSequence turns the accumulated value into a LIST of `K=V` strings at the first merge
+	// (and keeps a list-spelled base a list), and ResetProcessor.Apply has no removal from sequences ("TODO(ndeloof)
+	// support removal from sequence" in loader/reset.go) — an entry-level `!reset` after that is silently ignored.  That
+	// limitation is recorded in design/C04.md and proved on the model (Neg/C04Whole.lean); the oracle stays inside the
+	// domain in which the code has something to delete.
+	{
+		m := map[string]any{}
+		for k, v := range base {
+			m[k] = *v
+		}
+		s.Parts = append(s.Parts, m)
+	}
+	ti := 1 + g.r.Intn(n) // the part that carries the tag
+	for i := 1; i <= n; i++ {
+		part := map[string]any{}
+		if i == ti {
+			var present []string
+			for _, k := range keys {
+				if _, ok := state[k]; ok && k != "plain" {
+					present = append(present, k)
+				}
+			}
+			k := present[g.r.Intn(len(present))]
+			if g.chance(2, 3) {
+				part[k] = tagged("reset", nil)
+				delete(state, k)
+				s.Kind = "reset-entry"
+			} else {
+				v := val()
+				part[k] = tagged("override", v)
+				state[k] = v
+				s.Kind = "override-entry"
+			}
+			if strings.Contains(k, ".") {
+				s.DottedTag = true
+			}
+			if g.chance(1, 2) {
+				// the same file also sets an untagged entry
+				o := keys[g.r.Intn(len(keys))]
+				if o != k {
+					v := val()
+					part[o] = v
+					state[o] = v
+				}
+			}
+		} else if (i > ti || !kvAttr) && g.chance(1, 2) {
+			for _, k := range keys {
+				if g.chance(1, 3) {
+					v := val()
+					part[k] = v
+					state[k] = v
+				}
+			}
+		}
+		if len(part) == 0 {
+			s.Parts = append(s.Parts, c04Absent)
+		} else {
+			s.Parts = append(s.Parts, part)
+		}
+	}
+	t := map[string]any{}
+	for k, v := range state {
+		t[k] = v
+	}
+	s.Target = t
+	return s
+}
+
 // c04ReplayFrom: expected value when parts[from..] are applied on `start` — only defined when no later part
 // mentions the attribute (otherwise the later parts are dropped from the case).
 func c04ReplayFrom(s c04Split, from int, start any) any {
@@ -1644,6 +1750,9 @@ func (g *c04o) oneSplit0(n int) c04Split {
 		}
 		return g.splitIpam(n)
 	default:
+		if g.chance(1, 3) {
+			return g.splitTaggedEntry(n)
+		}
 		return g.splitTagged(n)
 	}
 }
@@ -1858,11 +1967,44 @@ func (g *c04o) splitCase(k int) (c04SplitCase, []c04Split) {
 			}
 		}
 	}
+	if !c.XNamed && g.chance(1, 10) {
+		// a user-chosen NAME that contains the path separator: `web.v1`
+		c.DotNamed = true
+		rename := func(d map[string]any) {
+			if svcs, ok := d["services"].(map[string]any); ok {
+				if w, ok := svcs["web"]; ok {
+					delete(svcs, "web")
+					svcs["web.v1"] = w
+				}
+			}
+		}
+		for _, d := range docs {
+			rename(d)
+		}
+		rename(target)
+	}
 	for _, d := range docs {
 		c.Docs = append(c.Docs, yDocOf(d).yaml())
 	}
 	c.Target = yDocOf(target).yaml()
 	return c, splits
+}
+
+// anyTagged: does some part of the split carry a `!reset` / `!override` tag (at the attribute or on an entry)?
+func anyTagged(s c04Split) (string, bool) {
+	for _, p := range s.Parts {
+		if d, ok := p.(*yDoc); ok && d.Tag != "" {
+			return d.Tag, true
+		}
+		if m, ok := p.(map[string]any); ok {
+			for _, e := range m {
+				if d, ok := e.(*yDoc); ok && d.Tag != "" {
+					return d.Tag, true
+				}
+			}
+		}
+	}
+	return "", false
 }
 
 func runC04Oracle(ctx *core.Ctx, gg *c04g) {
@@ -1882,9 +2024,20 @@ func runC04Oracle(ctx *core.Ctx, gg *c04g) {
 			if s.Null {
 				ctx.Count("split-null-mention:" + s.Kind)
 			}
+			if s.DottedTag {
+				ctx.Count("split-tag-under-dotted-key")
+			}
+			if c.DotNamed && len(s.Path) > 1 && s.Path[0] == "services" && s.Path[1] == "web" {
+				if d, ok := anyTagged(s); ok {
+					ctx.Count("split-tag-under-dotted-service-name:" + d)
+				}
+			}
 		}
 		if c.XNamed {
 			ctx.Count("split-x-named-service")
+		}
+		if c.DotNamed {
+			ctx.Count("split-dot-named-service")
 		}
 		if c.MultiDoc {
 			ctx.Count("split-as-documents")
